@@ -150,7 +150,7 @@ def main(tier):
         run.inconclusive_because(f"positive control did not fire: {b}")
     run.counters["positive_controls_fired"] = 18 - len(bad)
     plan = PLAN[tier]
-    run_shards(run, "c02", plan["shards"], timeout_s=600 if tier == "quick" else 7200)
+    run_shards(run, "c02", plan["shards"], timeout_s=3600 if tier == "quick" else 7200)
     from . import c11
 
     c11.operator_outputs_for_c02(run, tier)
